@@ -45,8 +45,11 @@ def u32Max : Nat := 4294967295
 /-- `LevelNo::MAX`, the level reported for terminal nodes -/
 def levelMax : Nat := 4294967295
 
-/-- Switches between the code as it is (`Guards.code`, everything `false`) and the proposed
-repairs (`Guards.all`); see /verif/work/proposed_fixes/Dddmp-*.diff. -/
+/-- Switches for the repairs of /verif/work/proposed_fixes/Dddmp-*.diff. `Guards.code` is the code
+as it is in /repo now (fix commits 2741478, 675d3b1, 178db83, 87032be: every repair except the
+exporter's mode selection `binT`), `Guards.before` the code before these commits (kept for the
+`…_before_fix` regression examples), `Guards.all` additionally contains the one repair that was
+not applied. -/
 structure Guards where
   /-- `import_bin`: check `decode_7bit(..) <= node_id` before `node_id - decode_7bit(..)` -/
   relId : Bool
@@ -62,8 +65,13 @@ structure Guards where
   binT : Bool
 deriving Repr, DecidableEq, Inhabited
 
-def Guards.code : Guards := ⟨false, false, false, false, false, false⟩
+def Guards.before : Guards := ⟨false, false, false, false, false, false⟩
+def Guards.code : Guards := ⟨true, true, true, true, true, false⟩
 def Guards.all : Guards := ⟨true, true, true, true, true, true⟩
+
+/-- the importer-side repairs are present -/
+def Guards.ImportSafe (g : Guards) : Prop :=
+  g.relId = true ∧ g.relVar = true ∧ g.noT = true ∧ g.cap = true
 
 /-! ## (2) escaping layer: `write_escaped` / `read_unescape` -/
 
@@ -741,7 +749,7 @@ def readsEnd (inp : List Nat) : Bool :=
 
 /-- reader: the support-variable index of a node from its variable code, the decoded argument
 `vid` and the smaller of the children's levels (`import_bin`, second `match var_code`) -/
-def resolveVid (g : Guards) (varCode : Code) (vid minLevel : Nat) (lsm slm : List Nat) : Res Nat :=
+def resolveVid (varCode : Code) (vid minLevel : Nat) (lsm slm : List Nat) : Res Nat :=
   if varCode = .absoluteID then
     if vid ≥ slm.length then .err else .ok vid
   else
@@ -752,9 +760,7 @@ def resolveVid (g : Guards) (varCode : Code) (vid minLevel : Nat) (lsm slm : Lis
         | none => .panic
     match childMin with
     | .ok c =>
-      if c < vid then .err
-      else if g.relVar && c - vid ≥ slm.length then .err
-      else .ok (c - vid)
+      if c < vid then .err else .ok (c - vid)
     | .err => .err
     | .panic => .panic
 
@@ -789,15 +795,17 @@ def importBinStep {E : Type} (g : Guards) (A : Alg E) (terminal : E) (lsm slm : 
               match nodes[ei]? with
               | none => .panic
               | some e0 =>
-                match resolveVid g varCode vid (min (A.level t) (A.level e0)) lsm slm with
+                -- the level of the else child is taken after complementing (fix 16c2a8d)
+                let e := if eCompl then A.complement e0 else e0
+                match resolveVid varCode vid (min (A.level t) (A.level e)) lsm slm with
                 | .err => .err
                 | .panic => .panic
                 | .ok vid =>
                   match slm[vid]? with
-                  | none => .panic      -- `suppvar_level_map[vid as usize]`
+                  | none => if g.relVar then .err else .panic      -- `suppvar_level_map.get(vid)`
                   | some level =>
-                    if level ≥ A.level t || level ≥ A.level e0 then .err
-                    else .ok (A.reduce level [t, if eCompl then A.complement e0 else e0], inp)
+                    if level ≥ A.level t || level ≥ A.level e then .err
+                    else .ok (A.reduce level [t, e], inp)
 
 /-- the node loop of `import_bin` -/
 def importBinLoop {E : Type} (g : Guards) (A : Alg E) (terminal : E) (lsm slm : List Nat) :
@@ -834,10 +842,12 @@ def asciiChildren {E : Type} (A : Alg E) (level nodeId : Nat) (nodes : List E) :
     if child ≥ nodeId then .err
     else match nodes[child - 1]? with
       | none => .panic
-      | some ce =>
+      | some ce0 =>
+        -- complement first, then compare levels (fix 16c2a8d)
+        let ce := if c < 0 then A.complement ce0 else ce0
         if level ≥ A.level ce then .err
         else match asciiChildren A level nodeId nodes cs with
-          | .ok es => .ok ((if c < 0 then A.complement ce else ce) :: es)
+          | .ok es => .ok (ce :: es)
           | .err => .err
           | .panic => .panic
 
